@@ -146,20 +146,32 @@ class FunctionCurveBase(PointCurveBase):
         # a coarse search first; curves can have all sorts of shapes
         # and a local search alone can end up on a wrong part of the curve (or at its end)
         params = np.linspace(self.bounds[0], self.bounds[1], num=101)
-        distances = [distance(t) for t in params]
-        i_closest = int(np.argmin(distances))
 
-        # then refine on both sides of the closest sample
-        # (separately; the curve can have a kink there)
+        # points that define an interpolated curve are break points (kinks) of its shape
+        knots = [t for t in getattr(self.function, "params", []) if self.bounds[0] <= t <= self.bounds[1]]
+        params = np.unique(np.concatenate((params, knots)))
+
+        points = np.array([self.get_point(t) for t in params])
+        distances = np.linalg.norm(points - point, axis=1)
+
+        i_closest = int(np.argmin(distances))
         best_param = params[i_closest]
         best_distance = distances[i_closest]
 
-        for i_other in (i_closest - 1, i_closest + 1):
-            if not (0 <= i_other < len(params)):
-                continue
+        # No point between two samples can be closer than this (triangle inequality; the length of
+        # curve between samples is estimated from the chord with some allowance). Another branch of the curve
+        # can pass closer than half a sample spacing, so it's not enough to look around the closest sample.
+        lengths = 1.2 * np.linalg.norm(np.diff(points, axis=0), axis=1)
+        lower_bounds = (distances[:-1] + distances[1:] - lengths) / 2
 
-            bounds = sorted((params[i_other], params[i_closest]))
-            result = scipy.optimize.minimize_scalar(distance, bounds=bounds, method="bounded", options={"xatol": 1e-12})
+        # then refine, each interval separately (the curve can have a kink at a sample)
+        for i in np.argsort(lower_bounds):
+            if lower_bounds[i] >= best_distance:
+                break
+
+            result = scipy.optimize.minimize_scalar(
+                distance, bounds=(params[i], params[i + 1]), method="bounded", options={"xatol": 1e-12}
+            )
 
             if result.fun < best_distance:
                 best_param = result.x
